@@ -894,6 +894,37 @@ where
     }
 }
 
+/// Read-only snapshot of the internal node storage (only with feature `verif-hooks`).
+#[cfg(feature = "verif-hooks")]
+#[derive(Debug, Clone, PartialEq, Eq)]
+pub struct VerifSnapshot {
+    /// Number of slots in the node table.
+    pub table_len: usize,
+    /// Content of the free list (in stack order).
+    pub free: Vec<usize>,
+    /// Cached number of entries.
+    pub count: usize,
+    /// For each slot: left child, right child, and whether the slot holds a value.
+    pub slots: Vec<(Option<usize>, Option<usize>, bool)>,
+}
+
+#[cfg(feature = "verif-hooks")]
+impl<P, T> PrefixMap<P, T> {
+    /// Return a read-only snapshot of the internal node storage.
+    pub fn verif_snapshot(&self) -> VerifSnapshot {
+        let table = self.table.as_ref();
+        VerifSnapshot {
+            table_len: table.len(),
+            free: self.free.clone(),
+            count: self.count,
+            slots: table
+                .iter()
+                .map(|n| (n.left, n.right, n.value.is_some()))
+                .collect(),
+        }
+    }
+}
+
 impl<P, T> PartialEq for PrefixMap<P, T>
 where
     P: Prefix + PartialEq,
